@@ -1,18 +1,23 @@
 """C02 — stored data is reused only under an identical lineage (no stale reads).
 
 Model: lean/StraxModel/Model/Lineage.lean; theorems: Props/C02.lean (lemmas in Lemmas/Lineage*.lean).
-Tie: random and enumerated *histories* (set_config / register / new_context / set fuzzy options /
+Tie: random, directed and enumerated *histories* (set_config / register / new_context / set fuzzy options /
 lineage / is_stored / make / get_array, each issued to one of two real contexts that share one
-DataDirectory) are executed on the real strax.Context and on the compiled Lean state machine; every
-step's observable is compared: the exact JSON text fed to SHA-1 for a lineage, is_stored, the error kind,
-the provenance of the rows get_array returned, and the directory listing.
+DataDirectory; single- and multi-output, child and default-less-option plugin classes) are executed on the real
+strax.Context and on the compiled Lean state machine; every step's observable is compared: the exact JSON text
+fed to SHA-1 for a lineage, is_stored, the error kind, the provenance of the rows get_array returned, and the
+directory listing.  On their own: `json.dumps(hashablize(v))` vs `canonString (canon v)` (hash/json-text),
+`StorageFrontend._matches` vs `fuzzyMatches .textEq` (fuzzy/matches), equality of auto-inferred versions vs
+`autoVersion` (autoversion/version).
 Oracle (independent of the model): a brand-new context with the same settings on an empty directory
 returns rows of the same provenance; a tracked change / version bump / class change alters exactly the
-keys of the type and its descendants, an untracked change alters none; fuzzy matching accepts exactly the
-lineages that differ only in the named parts and writes nothing; hashes are identical in subprocesses with
-other PYTHONHASHSEEDs and permuted insertion orders.
+keys of the plugin's outputs and their descendants, an untracked change alters none; lineage() of a context
+changes only through set_config / register / new_context; fuzzy matching accepts exactly the lineages that
+differ only in the named parts, writes nothing, and leaves no trace once switched off; editing the code of a
+`__version__ = None` plugin changes its key; hashes are identical in subprocesses with other PYTHONHASHSEEDs
+and permuted insertion orders.
 
-Provenance of rows: every harness plugin writes into its single output row the index of a table entry that
+Provenance of rows: every harness plugin writes into each of its output rows the index of a table entry that
 describes what it *really* used at compute time (class name, version, effective values of its tracked
 options, provenance of its input rows) — independent of strax's own lineage bookkeeping.
 """
@@ -40,11 +45,16 @@ ID = "C02"
 LEAN_MODULES = ["StraxModel.Props.C02"]
 TRUSTED = [
     "SHA-1 + base32 truncation (`deterministic_hash`) is represented by an abstract injective function H; the check compares the text fed to it",
-    "modelled not verified: CPython dict/set semantics, json.dumps formatting, numpy scalar/array conversion in NumpyJSONEncoder",
+    "modelled not verified: CPython dict/set semantics, json.dumps formatting (incl. float repr, taken from Python as a plain decimal), "
+    "numpy scalar/array conversion in NumpyJSONEncoder, inspect.getsource (auto-inferred versions: the harness sends a digest of each attribute's source)",
+    "the JSON printer of the model is proved injective (json_text_injective), so nothing but injectivity of H is assumed about the hash",
 ]
 ASSUMPTIONS = [
-    "one run id, one DataDirectory frontend, single-output plugins with save_when=ALWAYS (multi-output and save policies are C11's model)",
-    "option values: int, str, tuple, list, dict with str keys, set of str (plus immutabledict / numpy scalars and arrays in the hash-only part)",
+    "scope of the model, hence of EVERY theorem (stated once; no theorem name repeats it): two contexts on ONE DataDirectory frontend, one run id, "
+    "save_when = ALWAYS for every output, set_config in mode update, new_context() without arguments, no per-run defaults, no superruns; "
+    "plugin graphs with single- and multi-output plugins, child plugins, tracked / untracked / shared / default-less options are inside",
+    "option values: int (unbounded), str, bool, None, float with a plain-decimal repr, tuple, list, dict with str keys, set of str "
+    "(plus immutabledict / numpy scalars and arrays in the hash-only part); 'the same value' always means the same under hashablize (tuple = list, {} = ())",
     "class identity is structural: the harness builds one class object per distinct class description",
     "use_per_run_defaults is off (with it strax does not cache plugins at all)",
     "A-untracked: untracked options do not influence results — provenance (model `prov`, harness rows) records tracked options only; "
